@@ -195,7 +195,14 @@ def plan(tier, seed):
             for picks, case in explore.explore(_driver_for(k, rname), bound=b, stats=st):
                 items.append(case)
             per[f"k{k}"] = per.get(f"k{k}", 0) + st.leaves - n0
+    from vf.props import c07_fnconst
+    fc = c07_fnconst.plan_items()
+    items.extend(fc)
+    per["fnconst"] = len(fc)
     d = st.as_dict()
+    d["states"] += len(fc) + 1
+    d["transitions"] += len(fc)
+    d["leaves"] += len(fc)
     d["bound"] = BOUNDS[tier][3]   # the tightest one (k=3); per-k bounds below
     d["bounds"] = {f"k={k}": ("all placements and flags" if b >= 2 * k + 3 else
                               f"<= {b} deviations from the default (every block main/plain, extra none, "
@@ -603,6 +610,9 @@ def _minimise(item, family, budget=80):
 
 
 def execute(item):
+    if item.get("fam") == "fnconst":
+        from vf.props import c07_fnconst
+        return c07_fnconst.execute(item)
     ev = _evaluate(item)
     nkey = "|".join([item["rule"], "+".join(f"{a}:{b}" for a, b in item["blocks"]), item["extra"], item["meta"],
                      item["clash"]])
